@@ -1,11 +1,12 @@
 pub mod c03;
+pub mod c04;
 pub mod c13;
 pub mod gen;
 
 use crate::prop::Prop;
 
 pub fn all() -> Vec<&'static dyn Prop> {
-    vec![&c03::C03, &c13::C13]
+    vec![&c03::C03, &c04::C04, &c04::C05, &c13::C13]
 }
 
 pub fn by_id(id: &str) -> Option<&'static dyn Prop> {
